@@ -323,6 +323,6 @@ func TestContent(t *testing.T) {
 			}
 			return cl
 		},
-		Quick: 4000, Thorough: 100000,
+		Quick: 4000, Thorough: 60000,
 	})
 }
